@@ -22,7 +22,7 @@ func init() {
 		RaceThoroughOnly: true,
 		Rule: "data sets built by generated programs under configurations that spread versions over active/immutable memtables, several SSTables and multi-block SSTables (log retired so that " +
 			"tables are really read); at each checkpoint a battery of queries is compared with the sorted model: full scan, range scans with bounds from {nil, existing key, key+-epsilon, before " +
-			"first, after last, start>=end}, Seek(t)+Next run on full and bounded iterators (fresh, and already positioned by SeekToFirst + 0-3 Next), SeekToLast, prefix/suffix/prefix+suffix filters as the service builds them, and the same through " +
+			"first, after last, start>=end}, Seek(t)+Next run and SeekToLast on full and bounded iterators (fresh, and already positioned by SeekToFirst + 0-3 Next), SeekToLast, prefix/suffix/prefix+suffix filters as the service builds them, and the same through " +
 			"read-write transaction iterators with uncommitted puts/deletes overlaid. Every 5th case is concurrent: scanners run while writers touch a disjoint key class and a maintenance goroutine " +
 			"flushes/compacts; each scan must be strictly ascending, duplicate-free and contain every stable key with its value. " +
 			"distinct = hash(config, op kinds); non-trivial = >= 20 scan queries were checked after at least one flush/retire",
@@ -154,6 +154,7 @@ func scanBattery(x *kv.Exec, getIter func() (iterator.Iterator, error), getRange
 				}
 				it, _ = getRange(a, b)
 			}
+			pre := prePosition(r, it)
 			it.SeekToLast()
 			var lastLive []byte
 			for _, k := range m.Sorted() {
@@ -162,7 +163,7 @@ func scanBattery(x *kv.Exec, getIter func() (iterator.Iterator, error), getRange
 					lastLive = kb
 				}
 			}
-			what := fmt.Sprintf("SeekToLast on [%s,%s)", kv.Q(a), kv.Q(b))
+			what := fmt.Sprintf("%sSeekToLast on [%s,%s)", pre, kv.Q(a), kv.Q(b))
 			if !it.Valid() {
 				if lastLive != nil {
 					fail(fmt.Sprintf("%s is invalid, greatest live key is %s", what, kv.Q(lastLive)))
